@@ -56,7 +56,7 @@ def models(wd, tier, seed):
         if not os.path.exists(scen_path(name)):
             continue
         sc = json.load(open(scen_path(name)))
-        r, paths, nn = vlib.model_and_schedules(wd, name, mk_factory(sc), LABEL_RULES, seed, cap=400 if quick else 8000,
+        r, paths, nn = vlib.model_and_schedules(wd, name, mk_factory(sc), LABEL_RULES, seed, cap=250 if quick else 8000,
                                                 invariant_cfg={"specdirs": ["routine", "lib"]}, graph_cfg=None,
                                                 workers=8, timeout=900, maxlen=90)
         states += r["distinct"]
@@ -70,8 +70,8 @@ def models(wd, tier, seed):
 
 
 FAM = dict(driver="routine", specdirs=["routine", "lib"], monitor="RoutinePTrace", property_of=PROPERTY_OF, models=models,
-           n_random={"quick": 3000, "thorough": 150000},
-           modes={"quick": [("seq", "seq", 2000), ("burst", "burst", 3000, 4)], "thorough": [("seq", "seq", 100000), ("burst", "burst", 200000, 4)]},
+           n_random={"quick": 2000, "thorough": 150000},
+           modes={"quick": [("seq", "seq", 1200), ("burst", "burst", 1500, 4)], "thorough": [("seq", "seq", 100000), ("burst", "burst", 200000, 4)]},
            x_specs=["routine/Routine.tla"], p_monitor="routine/RoutineP.tla",
            assumptions=["RoutineP encodes the statements (DESIGN §3 C04/C05/C14 interpretation); exits overtaken by a superseding call before "
                         "they were recorded are not exit statuses; instances entering with a cancelled context are not judged by C14"])
